@@ -41,7 +41,7 @@ func checkC15(c *Ctx) {
 	hb := p.Field(hostPkg, "Set", "healthyBackup")
 	mu := p.Field(hostPkg, "Set", "RWMutex")
 	cache := p.Field(hostPkg, "Set", "healthyCache")
-	build := p.Func(hostPkg, "(*Set).buildHealthyCache")
+	build := cacheBuilder(p)
 	if all == nil || hm == nil || hb == nil || mu == nil || cache == nil || build == nil {
 		c.Unresolved("R1", "host.Set fields / buildHealthyCache")
 		return
@@ -590,12 +590,83 @@ func checkRemovalIdentity(c *Ctx, rule string) {
 	}
 }
 
+// cacheStoreSites: the calls that store into the set's healthy-hosts cache (an atomic.Value field, possibly wrapped).
+func cacheStoreSites(p *Prog, cache *types.Var) []*ssa.Call {
+	var out []*ssa.Call
+	for _, fn := range p.FuncsIn(hostPkg) {
+		if p.isTestFn(fn) {
+			continue
+		}
+		eachInstr(fn, func(_ *ssa.BasicBlock, _ int, in ssa.Instruction) {
+			call, ok := in.(*ssa.Call)
+			if !ok || !isCallTo(call, "(*sync/atomic.Value).Store") {
+				return
+			}
+			if derives(call.Call.Args[0], func(v ssa.Value) bool { f, _ := fieldAddr(v); return f == cache }) {
+				out = append(out, call)
+			}
+		})
+	}
+	return out
+}
+
+// cacheBuilder: the function that rebuilds the healthy-hosts cache - by its name, or by its role (it stores into the
+// cache field and sorts).
+func cacheBuilder(p *Prog) *ssa.Function {
+	if b := p.Func(hostPkg, "(*Set).buildHealthyCache"); b != nil {
+		return b
+	}
+	cache := p.Field(hostPkg, "Set", "healthyCache")
+	if cache == nil {
+		return nil
+	}
+	var cands []*ssa.Function
+	for _, st := range cacheStoreSites(p, cache) {
+		fn := st.Parent()
+		sorts := false
+		for _, g := range append([]*ssa.Function{fn}, staticCalleesDeep(fn, 1)...) {
+			if g.Blocks == nil {
+				continue
+			}
+			eachInstr(g, func(_ *ssa.BasicBlock, _ int, in ssa.Instruction) {
+				if isCallTo(in, "sort.Strings", "sort.Slice", "sort.Sort", "sort.SliceStable") {
+					sorts = true
+				}
+			})
+		}
+		if sorts && fn.Name() != "Healthy" {
+			cands = append(cands, fn)
+		}
+	}
+	if len(cands) == 1 {
+		return cands[0]
+	}
+	return nil
+}
+
 // checkTierRebuild: every function that writes or replaces a healthy tier reaches buildHealthyCache on every path.
 func checkTierRebuild(c *Ctx, rule string) {
 	p := c.P
 	hm := p.Field(hostPkg, "Set", "healthyMain")
 	hb := p.Field(hostPkg, "Set", "healthyBackup")
-	build := p.Func(hostPkg, "(*Set).buildHealthyCache")
+	cacheF := p.Field(hostPkg, "Set", "healthyCache")
+	muF := p.Field(hostPkg, "Set", "RWMutex")
+	// the cache is replaced only under the set's write lock: a list that is assembled under the lock but stored after
+	// releasing it (a lazy rebuild in the reader) overwrites the result of a change that landed in between - the cache
+	// is then non-empty and stale, and nobody rebuilds it until the next change of the set
+	if cacheF != nil && muF != nil {
+		le := newLockEngine(p, "host")
+		for i, st := range cacheStoreSites(p, cacheF) {
+			site := fmt.Sprintf("%s cache store#%d under the write lock", fnKey(st.Parent()), i+1)
+			if derives(st.Call.Args[0], func(v ssa.Value) bool { return isFreshAlloc(v) }) {
+				c.OK(rule, site, st.Pos(), "object not yet shared (constructor)")
+				continue
+			}
+			held := le.before[st][muF] == lockWrite
+			c.Check(held, rule, site, st.Pos(), "the set's write lock is held at the store", "the healthy-hosts cache is replaced without the set's write lock: a Remove, MarkHostUnhealthy or ReplaceAll that lands between assembling the list and storing it is overwritten by the stale list - removed or unhealthy hosts (or backups while a main host is healthy) are handed to every new connection until the set changes again")
+		}
+	}
+	build := cacheBuilder(p)
 	if hm == nil || hb == nil || build == nil {
 		c.Unresolved(rule, "Set.healthyMain/healthyBackup/buildHealthyCache")
 		return
@@ -719,6 +790,21 @@ func checkTierIdentity(c *Ctx, rule string) {
 				return
 			}
 			g := calleeFn(call.Common())
+			if g == nil {
+				// the mutator handed in as a function value: every caller passes a tier mutator
+				if prm, isPrm := call.Call.Value.(*ssa.Parameter); isPrm {
+					ts := p.paramFuncTargets(fn, prm)
+					for _, t := range ts {
+						if !mutators[t] {
+							ts = nil
+							break
+						}
+					}
+					if len(ts) > 0 {
+						g = ts[0]
+					}
+				}
+			}
 			if g == nil || !mutators[g] {
 				return
 			}
@@ -996,7 +1082,8 @@ func checkTierIdentity(c *Ctx, rule string) {
 			c.Check(path == nil, rule, site, call.Pos(), "every element of the slice is stored into the member map before the slice is handed to the tier", "an element can skip the store into the member map and still be handed to the tier ("+p.pathString(path)+"): the tier then holds an object that is not the set's entry for that address - selectable, but the monitor and removal act on the stored one")
 		})
 	}
-	c.Expect(rule, 5)
+	// roles: the add path, the remove path and the health-change path each hand objects to a tier mutator
+	c.Expect(rule, 3)
 }
 
 // paramOnlyForwarded: fn is itself a tier mutator wrapper whose slice parameter is only passed on.
